@@ -5,6 +5,8 @@ import warnings
 
 import numpy as np
 
+from harness import core
+
 S = 16384
 
 
@@ -54,9 +56,9 @@ def fit_record(Xi, Yi, a, k, space, solver, route, y1d=False, Xn=None, pre=None,
             warnings.simplefilter("ignore")
             if route == "pre":
                 Yh, W = pre
-                m_ = PCovR(regressor="precomputed", **kw).fit(X, Yh.copy(), W=None if W is None else W.copy())
+                m_ = core.mk(PCovR, regressor="precomputed", **kw).fit(X, Yh.copy(), W=None if W is None else W.copy())
             else:
-                m_ = PCovR(regressor=regressor_for(route), **kw).fit(X, Yarg)
+                m_ = core.mk(PCovR, regressor=regressor_for(route), **kw).fit(X, Yarg)
                 Yh = m_.regressor_.predict(X).reshape(len(X), -1)
             T = m_.transform(X)
             Yp = m_.predict(X)
